@@ -1,4 +1,5 @@
 mod c12;
+mod wrapper;
 
 fn main() {
     let args: Vec<String> = std::env::args().collect();
